@@ -110,4 +110,13 @@ def main(argv=None):
 
 
 if __name__ == '__main__':
-    sys.exit(main())
+    try:
+        code = main()
+    except SystemExit:
+        raise
+    except BaseException as ex:          # a failure of the analyser itself (import error, bug) is never reported as a violation
+        import traceback
+        traceback.print_exc()
+        print('ANALYSIS-ERROR internal error of the analyser: %s: %s' % (type(ex).__name__, ex))
+        code = 2
+    sys.exit(code)
